@@ -20,7 +20,7 @@ RULE = ('mixed_rank_graph (in-process pool) on every string frame with 2 feature
         'combination of per-column partitions (RGS(n)^3) instantiated with two value maps over {"", 0, 10, 9, ü, "a b"} (sorted-order coding differs from '
         'numeric order), label first/middle/last, heuristics {MI, MI-numba-randomized, MI-numba-3mr, max-value-coverage, AMI, correlation-Pearson, Constant} '
         'x target-only/pairwise; every emitted triplet compared with an independent reference on my own coding; a directed max-value-coverage family '
-        '(hash-slot collisions, int8/int16 code dtypes); every documented non-surrogate heuristic name must not degrade to a constant. '
+        '(hash-slot collisions, int8/int16 code dtypes, a 26x26 grid of code magnitudes around powers of ten and two); every documented non-surrogate heuristic name must not degrade to a constant. '
         'distinct_nontrivial = (frame, heuristic, mode) cases whose reference scores take >= 2 distinct values')
 ASSUMPTIONS = ['scikit-learn adjusted_mutual_info_score and numpy.corrcoef are trusted as references for AMI / Pearson',
                'for feature-feature pairs either conditioning orientation is accepted (the statement fixes only the label side)',
@@ -157,6 +157,14 @@ def coverage_cases():
     small2 = (i % 3).astype(np.int8)
     out.append(('int8_codes', small1, small2))
     out.append(('int16_codes', (i % 300).astype(np.int16), (i % 7).astype(np.int8)))
+    # two-level grid: the four combinations of {0,K1} x {0,K2} with multiplicities 4,3,2,1 for code magnitudes around powers of ten and two
+    # (any bounded table / modulus / narrow key arithmetic merges two of the four pairs for some K1,K2 of this grid)
+    ks = [1, 9, 10, 99, 100, 999, 1000, 1001, 9999, 10 ** 4, 99999, 10 ** 5, 999999, 10 ** 6, 255, 256, 1023, 1024, 4095, 4096, 65535, 65536, 2 ** 20 - 1, 2 ** 20, 12831, 17]
+    for k1 in ks:
+        for k2 in ks:
+            a1 = np.array([0] * 4 + [0] * 3 + [k1] * 2 + [k1], dtype=np.int64)
+            a2 = np.array([0] * 4 + [k2] * 3 + [0] * 2 + [k2], dtype=np.int64)
+            out.append((f'grid_{k1}_{k2}', a1, a2))
     return out
 
 
